@@ -166,6 +166,22 @@ def concurrent_sweep() -> list[dict]:
     return out
 
 
+def retry_sweep() -> list[dict]:
+    """A write that fails part-way (each fault at each of its exchanges) is retried with the very same schedule (the
+    harness derives the content from the controller's version, which a failed write has not changed), with and without
+    a cached schedule from an earlier read: the retry must write it, and the follow-up read must return it."""
+    out = []
+    for z, other in ((1, 2), (2, 1)):
+        for fault in ("lost", "rlost", "cancel", "timeout"):
+            for n in range(0, 5):
+                for cached in (1, 0):
+                    h = ([["start", 1, z, 0, 0, 0, -1]] if cached else []) + [
+                        ["start", 2, z, 1, 0, 1 if cached else 0, -1], [fault, 2, n, 0, 0, 0, 0],
+                        ["start", 3, z, 1, 0, 2, -1], ["fu", z, 0, 0, 0, 0, -1], ["fu", other, 0, 0, 0, 0, -1]]
+                    out.append({"zones": [1, 2], "h": h})
+    return out
+
+
 def _exec(sc: dict) -> tuple[dict, int, int, int]:
     fakes.quiet_logging()
     rr = X.run_scenario(sc)
@@ -274,6 +290,7 @@ def main(tier: str, replay: str | None) -> None:
     scen += [("enumerate", s) for s in enum]
     scen += [("bump-sweep", s) for s in bump_sweep()]
     scen += [("concurrent-sweep", s) for s in concurrent_sweep()]
+    scen += [("retry-sweep", s) for s in retry_sweep()]
     # transparent-fault variants (slow / duplicated replies) of a sample
     base = [s for _, s in scen]
     for s in rnd.sample(base, min(len(base), 120 if quick else 2000)):
